@@ -52,6 +52,13 @@ def _one(raw):
                 inv.add('__doc__')
             if set(calldefs) != inv:
                 bad.append(('calldefs', sorted(inv), sorted(calldefs)))
+            # whose docstring a callname carries: the declared owner's (a setter never replaces its getter)
+            for e in case['decl']:
+                cn, x = collectlib.callname(case, e), e[2]
+                summ = case['summary'][x]
+                if cn in calldefs and summ and summ[0] and case['items'][x - 1]['doc']['q'] in ('d3', 's3'):
+                    if calldefs[cn].doclineno != summ[0]:
+                        bad.append(('docstring_owner[%s]' % cn, summ[0], calldefs[cn].doclineno))
             for style in STYLES:
                 try:
                     exs = list(core.parse_doctestables(path, style=style, analysis='static'))
@@ -115,6 +122,8 @@ def run(tier):
     # documented definitions inside except / else / finally / case / if-else / for-else clauses and for bodies
     collectlib.run_space(out, 'C07 clauses', 'Clause_Items', 'C07_ModDocs', 3, _one, sig, limit=b['limit'], maxdepth=2)
     collectlib.deviation_must_fail(out, 'Clause_Items', 'C07_ModDocs', 2, 'SkipClauseBodies')
+    # a property with its setter and deleter: the callname belongs to the getter, whatever decorators the others carry
+    collectlib.run_space(out, 'C07 properties', 'Setter_Items', 'C07_ModDocs', 4, _one, sig, limit=b['limit'], maxdepth=1)
     for dev in ('CollectNestedClass', 'CollectMainGuard', 'CollectSetters', 'VisitFunctionBody', 'NoAsyncVisit'):
         collectlib.deviation_must_fail(out, 'C07_Items', 'C07_ModDocs', 2 if dev != 'CollectSetters' else 3, dev)
     from . import c17, corpus_collect, googlelib
